@@ -23,6 +23,7 @@ from synkit.Graph.Matcher.graph_cluster import GraphCluster
 
 from ..kernel import Sim, Violation, rng_for, derive
 from ..seams import Seams, GCControl
+from ..executor import World
 from . import rcdata
 
 PROP = "C13"
@@ -32,7 +33,7 @@ TIERS = {
 }
 STEP_CAP = 500000
 SHRINK_BUDGET = 250
-FAULT_OPS = ("restart", "redeliver")
+FAULT_OPS = ("restart", "redeliver", "alloc", "gc")
 PROBES = ["redelivery_hit_template", "restart_between_batches", "near_miss_same_pregroup",
           "class_of_size_ge3_split_across_batches", "single_batch_no_template_path", "relabelled_duplicate",
           "one_shot_compared", "lib_check_new_class", "lib_check_existing_class"]
@@ -40,7 +41,8 @@ REAL = ["synkit.Graph.Matcher.batch_cluster.BatchCluster.fit / cluster / lib_che
         "synkit.Graph.Matcher.graph_cluster.GraphCluster.fit / iterative_cluster",
         "synkit.Graph.Matcher.graph_morphism.graph_isomorphism (networkx is_isomorphic with generic matchers)",
         "synkit.Utils.utils.stratified_random_sample"]
-STUB = ["random module object seen by synkit.Utils.utils -> private random.Random (the library reseeds the global RNG)",
+STUB = ["builtin id() inside synkit modules -> SimAllocator (address re-issue only after the owner is provably dead), cyclic GC trigger",
+        "random module object seen by synkit.Utils.utils -> private random.Random (the library reseeds the global RNG)",
         "restart = new BatchCluster + template library round-tripped through pickle (only durable state survives)"]
 ASSUMPTIONS = [
     "ground truth classes come from networkx VF2 with independent match functions categorical_node_match(['element','charge']) / categorical_edge_match('order') on canonical (un-relabelled) copies, memoised by content",
@@ -92,8 +94,13 @@ def generate(seed: int, tier: str = "quick") -> Dict[str, Any]:
         k += 1
         return derive(seed, "op", k)
 
+    if faulty and rng.random() < 0.7:
+        ops.append({"op": "alloc", "s": s(), "p_reuse": rng.choice([0.3, 0.6, 1.0, 1.0]),
+                    "pick": rng.choice(["lifo", "fifo", "rand"]), "gc_p": rng.choice([0.05, 0.3, 0.6])})
     for _ in range(rng.randint(2, 9)):
         c = rng.random()
+        if faulty and rng.random() < 0.1:
+            ops.append({"op": "gc", "s": s()})
         if faulty and c < 0.12:
             ops.append({"op": "restart", "s": s()})
         elif faulty and c < 0.27:
@@ -118,15 +125,16 @@ def generate(seed: int, tier: str = "quick") -> Dict[str, Any]:
 
 def execute(case: Dict[str, Any], sim: Sim) -> None:
     seams = Seams()
+    world = World(sim)
     with GCControl():
-        seams.install(random_obj=_random.Random(99))
+        seams.install(id_fn=world.id_fn(), random_obj=_random.Random(99))
         try:
-            _run(case, sim)
+            _run(case, sim, world)
         finally:
             seams.uninstall()
 
 
-def _run(case: Dict[str, Any], sim: Sim) -> None:
+def _run(case: Dict[str, Any], sim: Sim, world: World) -> None:
     akey = "inv" if case["cfg"].get("attr") else None
     bc = BatchCluster()
     templates: List[Dict[str, Any]] = []
@@ -177,7 +185,16 @@ def _run(case: Dict[str, Any], sim: Sim) -> None:
 
     for op in case["ops"]:
         sim.step()
+        world.reseed(op.get("s", 0))
         k = op["op"]
+        if k == "alloc":
+            world.set_alloc_policy(op["p_reuse"], op["pick"], op["gc_p"])
+            sim.event("alloc", [op["p_reuse"], op["pick"], op["gc_p"]])
+            continue
+        if k == "gc":
+            world.main_alloc.collect()
+            sim.event("gc", None)
+            continue
         if k == "restart":
             bc = BatchCluster()
             templates = pickle.loads(pickle.dumps(templates))
